@@ -2,8 +2,10 @@ package fs_db
 
 import (
 	"context"
+	"errors"
 	"fmt"
 	"io"
+	"sync/atomic"
 )
 
 type txCtxFn func(ctx context.Context) context.Context
@@ -27,6 +29,11 @@ type tx struct {
 	TxOps
 	store Store
 	ctxFn txCtxFn
+
+	// ended is set once Commit or Rollback has returned: the write path does
+	// not consult the transaction registry, so the handle itself refuses
+	// further writes.
+	ended atomic.Bool
 }
 
 // CreateTx returns transaction fs db.
@@ -38,7 +45,29 @@ func CreateTx(store Store, t TxOps, ctxFn txCtxFn) Tx {
 	}
 }
 
+func (t *tx) Commit(ctx context.Context) error {
+	err := t.TxOps.Commit(ctx)
+	if err == nil || errors.Is(err, ErrTxSerialization) || errors.Is(err, ErrTxNotFound) {
+		t.ended.Store(true)
+	}
+
+	return err
+}
+
+func (t *tx) Rollback(ctx context.Context) error {
+	err := t.TxOps.Rollback(ctx)
+	if err == nil {
+		t.ended.Store(true)
+	}
+
+	return err
+}
+
 func (t *tx) Set(ctx context.Context, key string, b []byte) error {
+	if t.ended.Load() {
+		return fmt.Errorf("store set: %w", ErrTxNotFound)
+	}
+
 	err := t.store.Set(t.ctxFn(ctx), key, b)
 	if err != nil {
 		return fmt.Errorf("store set: %w", err)
@@ -48,6 +77,10 @@ func (t *tx) Set(ctx context.Context, key string, b []byte) error {
 }
 
 func (t *tx) SetReader(ctx context.Context, key string, reader io.Reader) error {
+	if t.ended.Load() {
+		return fmt.Errorf("store set reader: %w", ErrTxNotFound)
+	}
+
 	err := t.store.SetReader(t.ctxFn(ctx), key, reader)
 	if err != nil {
 		return fmt.Errorf("store set reader: %w", err)
@@ -84,6 +117,10 @@ func (t *tx) GetKeys(ctx context.Context) ([]string, error) {
 }
 
 func (t *tx) Delete(ctx context.Context, key string) error {
+	if t.ended.Load() {
+		return fmt.Errorf("store delete: %w", ErrTxNotFound)
+	}
+
 	err := t.store.Delete(t.ctxFn(ctx), key)
 	if err != nil {
 		return fmt.Errorf("store delete: %w", err)
@@ -93,6 +130,10 @@ func (t *tx) Delete(ctx context.Context, key string) error {
 }
 
 func (t *tx) Create(ctx context.Context, key string) (File, error) {
+	if t.ended.Load() {
+		return nil, fmt.Errorf("store create: %w", ErrTxNotFound)
+	}
+
 	wc, err := t.store.Create(t.ctxFn(ctx), key)
 	if err != nil {
 		return nil, fmt.Errorf("store create: %w", err)
